@@ -362,6 +362,8 @@ def check_by_path(data, lay, recs):
         atexit.register(lambda: os.path.exists(_PATH) and os.remove(_PATH))
     with open(_PATH, 'wb') as f:
         f.write(data)
+    from mc import seams as _seams
+    _seams.pin_times(_PATH)
 
     class _S:
         pass
